@@ -1580,6 +1580,13 @@ func (s *Netceptor) handleRoutingUpdate(ri *routingUpdate, recvConn string) {
 
 // Handles a ping request.
 func (s *Netceptor) handlePing(md *MessageData) error {
+	// Replies are sent from the "ping" service.  Never answer a packet that claims to
+	// come from it: the answer would be handled as a ping again, recursing without end
+	// on this node or bouncing between two nodes forever.
+	if md.FromService == "ping" {
+		return nil
+	}
+
 	return s.sendMessage("ping", md.FromNode, md.FromService, []byte{})
 }
 
